@@ -3,6 +3,8 @@
         -> ok=<0|1> clean=<0|1> fold=<hex> split=<hex>,<hex>
      F | <tbl> | <file> ...            file  = hexname:k:size:hexdata        (k in r d s o)
         -> V=.. O=.. I=.. SE=b NM=b | ZV=.. ZI=.. ZSE=b ZNM=b | C=ERR|OK:name:data,.. | U=ok|err|na T=tree | FV=<verdicts> ZVV=<verdicts>
+     D | <tbl> | <file> ...            a directory tree given by its leaves (size = length of data)
+        -> V=.. I=.. SE=b NM=b | C=ERR|OK:name:data,..         (CheckDir, CreateFromDir)
      Z | <tbl> | <czsize> <uzsize> <pre> | <entry> ...
                                        entry = hexname:declared:k:hexdata:crcok:openok:method
         -> V=.. I=.. SE=b NM=b | U=ok|err T=tree
@@ -133,6 +135,14 @@ let handle line =
     let fv = String.concat "" (List.map vchar (c15_files_verdicts t files)) in
     let zv = String.concat "" (List.map vchar (c15_zip_verdicts t ents)) in
     Printf.sprintf "%s | %s | %s | %s | FV=%s ZVV=%s" (show_checked cf) (show_zchecked "Z" cz) cs us fv zv
+  | ["D"; tb; fl] ->
+    let t = parse_tbl tb in
+    let files = List.map parse_file (words fl) in
+    let cd = c15_check_dir t files in
+    let cs = match c15_create_from_dir t files with
+      | None -> "C=ERR"
+      | Some es -> "C=OK:" ^ String.concat "," (List.map (fun e -> hs e.e_name ^ ":" ^ hs e.e_data) es) in
+    Printf.sprintf "%s | %s" (show_zchecked "" cd) cs
   | ["Z"; tb; hdr; el] ->
     let t = parse_tbl tb in
     (match words hdr with
